@@ -226,7 +226,7 @@ func oneCase(run *harness.Run, d *driver, key string, idx int, r *rand.Rand, cc 
 	// ---- snapshot phase
 	snap := genSnapshot(r, cc.Snapshot, hist, black, filter)
 	base := int64(1000 + r.Intn(100000))
-	ss := &drive.Session{IDs: ids, Out: out, Watch: 90 * time.Second}
+	ss := &drive.Session{IDs: ids, Out: out, Watch: 180 * time.Second}
 	snapErr := ss.FullSync(ctx, snap.File, base)
 	if snapErr == drive.ErrWatchdog {
 		run.Inconclusive("%s: watchdog: snapshot replay did not return", key)
@@ -373,7 +373,7 @@ func oneCase(run *harness.Run, d *driver, key string, idx int, r *rand.Rand, cc 
 	case e := <-ar.Done:
 		sendErr, selfReturned = e, true
 		ar.F.Abort()
-	case <-time.After(60 * time.Second):
+	case <-time.After(150 * time.Second):
 		ar.Stop(10 * time.Second)
 		run.Inconclusive("%s: watchdog: %d committable unit(s) neither applied nor refused (handed %d of %d bytes) [%s]", key, len(unapplied()), ar.F.Handed(), len(w.bytes), cc)
 		return
@@ -393,7 +393,7 @@ func oneCase(run *harness.Run, d *driver, key string, idx int, r *rand.Rand, cc 
 			case e := <-ar.Done:
 				sendErr, selfReturned = e, true
 				ar.F.Abort()
-			case <-time.After(45 * time.Second):
+			case <-time.After(90 * time.Second):
 				ar.Stop(10 * time.Second)
 				phase = "refusable-watchdog"
 			}
@@ -482,23 +482,36 @@ func oneCase(run *harness.Run, d *driver, key string, idx int, r *rand.Rand, cc 
 	blamed := attribute(sendErr, base, w)
 	outcomeOf := map[string]string{}
 
-	// a refusal while only committable units had been handed out
+	// a refusal while only committable units had been handed out.  Gated / clean streams: nothing
+	// refusable has left the feeder yet, so whatever Send reports concerns a committable unit.
+	// Ungated streams (the refusable unit travels right behind the others): only a report the
+	// tool itself attributes (by stream offsets) to a committable unit counts.
+	onlyCommittableFed := cc.Gated || w.poison == nil
 	if selfReturned && phase == "clean" {
-		if isRefusal(cls) {
-			victim := blamed
-			if victim == nil {
-				// the first committable unit that was not applied
-				for _, u := range w.units {
+		switch {
+		case !isRefusal(cls) && cls != "nil" && !onlyCommittableFed && blamed != nil && blamed.Poison:
+			// e.g. the key resolver's own connection failed while resolving the refusable unit
+		case !isRefusal(cls):
+			if onlyCommittableFed || cls == "other" {
+				run.Inconclusive("%s: Send returned by itself (%s) before every committable unit was applied: %v", key, cls, sendErr)
+				return
+			}
+		default:
+			var victim *unit
+			raise := false
+			switch {
+			case blamed != nil && !blamed.Poison && !blamed.After:
+				victim, raise = blamed, true
+			case onlyCommittableFed:
+				raise = true
+				for _, u := range w.units { // the first committable unit that was not applied
 					if !u.Poison && !u.After && u.Class != clsFiltered && !applied[u.ID] {
 						victim = u
 						break
 					}
 				}
 			}
-			if cc.Gated || w.poison == nil || (victim != nil && !victim.Poison && !victim.After) {
-				if victim != nil && (victim.Poison || victim.After) {
-					victim = nil
-				}
+			if raise {
 				sig := fmt.Sprintf("single-slot-refused|%s|%s", cls, modeS)
 				what := fmt.Sprintf("Send stopped with %q while only units whose keys share a slot (by ref, after the filter) had been handed out: %v", cls, sendErr)
 				ex := map[string]any{"send_error": sendErr.Error(), "units_not_applied": unapplied()}
@@ -510,9 +523,6 @@ func oneCase(run *harness.Run, d *driver, key string, idx int, r *rand.Rand, cc 
 				}
 				run.Violation(sig, key, what, wit(ex))
 			}
-		} else if !(w.poison != nil && !cc.Gated) {
-			run.Inconclusive("%s: Send returned by itself before every committable unit was applied: %v", key, sendErr)
-			return
 		}
 	}
 
@@ -555,7 +565,10 @@ func oneCase(run *harness.Run, d *driver, key string, idx int, r *rand.Rand, cc 
 			} else if u.Poison {
 				switch {
 				case phase == "refusable-watchdog":
-					run.Inconclusive("%s: watchdog: the refusable unit was neither sent nor reported within 45 s [%s]", key, cc)
+					run.Inconclusive("%s: watchdog: the refusable unit was neither sent nor reported within 90 s [%s]", key, cc)
+					outcomeOf[u.ID] = "unknown"
+				case selfReturned && cls == "other":
+					run.Inconclusive("%s: Send ended with an error this check cannot classify as a refusal: %v", key, sendErr)
 					outcomeOf[u.ID] = "unknown"
 				case selfReturned && sendErr != nil && cls != "canceled":
 					outcomeOf[u.ID] = "refused:" + cls
@@ -564,7 +577,9 @@ func oneCase(run *harness.Run, d *driver, key string, idx int, r *rand.Rand, cc 
 					}
 				case selfReturned && sendErr == nil:
 					run.Violation(fmt.Sprintf("refusable-unit-dropped-silently|%s|%s|%s", u.Class, coarse(u.Variant), modeS), key,
-						"Send returned nil after a unit that cannot be routed: it was neither sent nor reported", wit(map[string]any{"unit": u.describe()}))
+						"Send returned nil after a unit that cannot be routed: the replay stopped, nothing of the unit was sent, but no error was reported",
+						wit(map[string]any{"unit": u.describe(), "send_returned": "nil (no error)", "requests_carrying_its_id": len(reqsOf[u.ID]),
+							"COMMAND_GETKEYS_probes_for_it": getkeys[u.ID], "committable_units_applied_before_it": len(applied)}))
 					outcomeOf[u.ID] = "dropped"
 				default:
 					outcomeOf[u.ID] = "unknown"
